@@ -1044,7 +1044,12 @@ pub fn prop() -> Prop {
         id: ID,
         meta: Meta {
             level: "exploration",
-            rule: "S2 half only (state machine; the event-loop half on real wire bytes is not built yet). A case is one \
+            rule: "Two halves. S3 (real EventLoop::poll, v4 and v5, scripted broker, transports that never fail, 1-3 \
+                   connections ended only by packets the client itself refuses): broker bursts of 0-12 frames per write \
+                   (publishes QoS 0-2 incl. repeated ids / ids above the limit / 65535, scripted releases, SUBACK, \
+                   UNSUBACK, PINGRESP, unsolicited PUBACK/PUBREC/PUBCOMP/PUBREL, PINGREQ), user requests and manual \
+                   acks interleaved; wire-in vs Incoming events, wire-out vs Outgoing events, replies per inbound flow. \
+                   S2 (real MqttState driven directly): a case is one \
                    history of 20-160 ops against the real v4 or v5 MqttState: read batches of 0-12 broker packets of every \
                    type (publishes QoS 0-2 with ids valid / repeated / above the limit / 65535, releases known and unknown, \
                    acknowledgements solicited / repeated / unsolicited / wrong kind / id 0, SUBACK, UNSUBACK, PINGRESP, \
@@ -1057,7 +1062,9 @@ pub fn prop() -> Prop {
                 "manual mode: PUBCOMP for a release whose publish the user acknowledged is demanded; a release arriving before the user's PUBREC is not judged (two clauses of the statement conflict)",
                 "a PUBREL for an id the client does not know and a repeated PUBREC may be answered with an error or the protocol reply; either way bookkeeping must not change",
                 "the order in which clean() lists unacknowledged publishes is not bookkeeping (3.1.1: an unsolicited PUBACK moves last_puback and rotates it; reported in the evidence, not judged)",
-                "S2: a reply of a read batch counts as written when the whole batch was handled (Network::readb feeds, EventLoop::select flushes afterwards)",
+                "S2: a reply of a read batch counts as written when the whole batch was handled (Network::readb feeds, EventLoop::select flushes afterwards); the S3 half observes the real write",
+                "S3: events are compared in the order the client produced them (poll() returns + state.events still queued after each return); the 3.1.1 CONNACK is the one event that bypasses the queue",
+                "S3: MQTT 5 topic aliases, reason codes, server DISCONNECT and mid-session CONNACK are fed in the S2 half only",
             ],
             floors: &[
                 ("unsolicited-ack", 6000),
@@ -1070,6 +1077,13 @@ pub fn prop() -> Prop {
                 ("C10/inbound-flow-reply", 50000),
                 ("C10/incoming-surfaced-once", 100000),
                 ("C10/unsolicited-leaves-bookkeeping-unchanged", 18000),
+                ("s3-read-batch-over-limit", 150),
+                ("s3-unsolicited-ack", 250),
+                ("s3-manual-acks", 200),
+                ("s3-client-ended-connection", 300),
+                ("C10/s3/incoming-events-match-wire-in", 1000),
+                ("C10/s3/outgoing-events-match-wire-out", 1000),
+                ("C10/s3/inbound-flow-replies-on-wire", 1000),
             ],
         },
         run,
